@@ -88,6 +88,38 @@ def mon_c01(case_line, acts):
             if p['type'] != 'PUBLISH' and p['flags'] != (want or 0):
                 cls = 'K01a' if p['type'] in ('SUBSCRIBE', 'UNSUBSCRIBE') and p['flags'] == 0b1010 else None
                 out.append(V('%s with reserved flags %s (%s)' % (p['type'], bin(p['flags']), p['raw'][:8].hex()), cls))
+        # a disconnect() that reports success has put a whole DISCONNECT on the wire as the last packet
+        sofar = bytearray()
+        orphan = None      # (action index, partial packet bytes) not owned by any entry the session has in progress
+        for i in c['actions']:
+            a = acts[i]
+            wrote = False
+            for e in a.events:
+                if e[0] == 'w' and e[2]:
+                    sofar += bytes.fromhex(e[3])
+                    wrote = True
+            if wrote and orphan is not None:
+                out.append(V('action %d left the partial packet %s on the wire that no queued entry owns; action %d wrote '
+                             'more bytes behind it' % (orphan[0], orphan[1].hex(), i),
+                             'K01c' if acts[orphan[0]].code == 4 else None))
+                orphan = None
+            fr, tl, er = mqttspec.split_stream(bytes(sofar))
+            st = a.state or {}
+            if tl and not er and st.get('live') == '1':
+                owned = False
+                for key in ('ret', 'ctl', 'rel'):
+                    for x in list_field(st.get(key, '[]')):
+                        if (':W%d:' % len(tl)) in (x + ':') :
+                            if key != 'ret' or x.split(':')[-1].startswith(tl.hex()):
+                                owned = True
+                if not owned:
+                    orphan = (i, bytes(tl))
+            if a.code == 4 and wrote and (a.result or '').startswith('ok'):
+                fr, tl, er = mqttspec.split_stream(bytes(sofar))
+                if tl or er or not fr or fr[-1][0] >> 4 != 14:
+                    out.append(V('disconnect() returned Ok but its DISCONNECT is not a whole packet of the stream: '
+                                 'it was written inside another packet (…%s)' % bytes(sofar).hex()[-24:],
+                                 classify_c01(c, acts, None)))
         names = [p['type'] for p in pk]
         if 'DISCONNECT' in names:
             k = names.index('DISCONNECT')
